@@ -10,9 +10,9 @@
     [input_size] is [Fault OobRead].  The decoders write exactly [count] output elements, the capacity the
     caller declares by passing [count].
 
-    Size arithmetic is [size_t]: [(size_t)count * width] wraps modulo 2^64 exactly as in C.  On the
-    little-endian fast path INT32/INT64/FLOAT/DOUBLE are a memcpy of [bytes_needed] bytes; the model reads
-    them value by value, which is the same function whenever [count * width < 2^64]. *)
+    The fixed-width decoders compare [count] with [input_size / width] (by division, so nothing wraps).  On the
+    little-endian fast path INT32/INT64/FLOAT/DOUBLE are a memcpy of [count * width] bytes; the model reads
+    them value by value, which is the same function. *)
 From Coq Require Import NArith ZArith List Bool.
 From Carquet Require Import Base.Res Enc.DeltaBits.
 Import ListNotations.
@@ -38,10 +38,10 @@ Fixpoint read_fixed (k n : nat) (bs : list N) : res (list N) :=
   end.
 
 Definition dec_fixed (k : nat) (input : list N) (count : N) : res (list N * N) :=
-  let need := size_t (count * N.of_nat k) in
-  if len input <? need then Err ERR_NEG1
+  (* (uint64_t)count > input_size / k: by division, the product may not fit in size_t *)
+  if len input / N.of_nat k <? count then Err ERR_NEG1
   else match read_fixed k (N.to_nat count) input with
-       | Ok vs => Ok (vs, need)
+       | Ok vs => Ok (vs, count * N.of_nat k)
        | Err c => Err c
        | Fault f => Fault f
        end.
@@ -63,10 +63,9 @@ Fixpoint triples (ws : list N) : list (N * N * N) :=
   match ws with a :: b :: c :: t => (a, b, c) :: triples t | _ => [] end.
 
 Definition plain_decode_int96 (input : list N) (count : N) : res (list (N * N * N) * N) :=
-  let need := size_t (count * 12) in
-  if len input <? need then Err ERR_NEG1
+  if len input / 12 <? count then Err ERR_NEG1
   else match read_fixed 4 (3 * N.to_nat count) input with
-       | Ok ws => Ok (triples ws, need)
+       | Ok ws => Ok (triples ws, count * 12)
        | Err c => Err c
        | Fault f => Fault f
        end.
@@ -156,9 +155,9 @@ Definition plain_encode_flba (raw : list N) : list N := raw.
 
 Definition plain_decode_flba (input : list N) (count fixed_len : N) : res (list N * N) :=
   if fixed_len =? 0 then Err ERR_NEG1 else
-  let need := size_t (count * fixed_len) in
-  if len input <? need then Err ERR_NEG1
-  else match take (N.to_nat need) input with
+  if len input / fixed_len <? count then Err ERR_NEG1 else
+  let need := count * fixed_len in
+  match take (N.to_nat need) input with
        | None => Fault OobRead
        | Some (v, _) => Ok (v, need)
        end.
